@@ -4,12 +4,20 @@ Implementation under test (real code, in-process):
   A. FlowIRConcrete(doc, 'default', {}).replicate(ignore_errors=True)   (what conf.py does): the replicated
      component dictionaries -> per component references, arguments, variables.replica, workflowAttributes.replicate
   B. WorkflowGraph.graphFromFlowIR(doc, {}, primitive=False): loader verdict, node set, edge set
-Model: lean/St4sd/Model/Repl.lean via drv-c03 (graph level + text level).  Theorems: lean/St4sd/Props/C03.lean.
+  C. FlowIR.apply_replicate(components in a CHOSEN processing order, variables of the instance, ...): path A hands the
+     components over in the iteration order of a set (it changes with the string hash seed of the process), so the
+     same call is repeated for the explicit permutations case['orders'] (always the topological order and its reverse:
+     every pair of components is processed in both relative orders); the result must be the same for every order
+Replica counts and aggregate flags may be given through %(var)s with the same variable name defined at several scopes
+(global, stage, the component itself, sibling components): the oracle resolves each in the component's OWN scope chain.
+Model: lean/St4sd/Model/ReplVars.lean (resolution of the attributes per component) + lean/St4sd/Model/Repl.lean
+(graph level + text level) via drv-c03.  Theorems: lean/St4sd/Props/C03.lean.
 Oracle: `expected()` below, written from the property text (set based, independent of the Lean model).
 """
 from __future__ import annotations
 
 import copy
+import itertools
 import logging
 
 METHODS = ['ref', 'copy', 'link', 'copyout', 'extract', 'output']
@@ -19,15 +27,78 @@ POOL = ['A', 'BA', 'AB', 'ABA', 'A1', 'A10', 'B', 'B-A', 'A_B', 'xA', 'gen', 're
 FILES = [None, None, None, 'out.txt', 'dir/sub/f.dat', 'A', 'BA', 'x/A', 'res_1.csv']
 DIRECT = ['data/%s:ref', 'input/%s:copy', 'data/%s.txt:ref', 'bin/%s:ref', 'conf/x/%s:link']
 TRUE_SPELLINGS = [True, 'yes', 'true', 'True', 'YES']
+FALSE_SPELLINGS = [False, 'no', 'false', 'No', 'FALSE']
+COUNT_VARS = ['n', 'N', 'numberPoints', 'replicas', 'num-points', 'agg']
+FLAG_VARS = ['doAggregate', 'collect', 'agg', 'n']
+UNRESOLVED = 'unresolved'
 
 
-def is_agg(c):
+# ----------------------------------------------------------------------------------------
+# variable scopes (the property: an attribute given as %(var)s is resolved in the scope chain of ITS component)
+# ----------------------------------------------------------------------------------------
+
+def normalise(case):
+    """Cases written before the scopes were explicit (how = var-global / var-stage / var-comp, one private variable
+    per component) in the explicit form: case['gvars'], case['svars'][str(stage)], comp['vars'], how = 'var'."""
+    if 'gvars' in case and all('vars' in c for c in case['comps']):
+        return case
+    case = copy.deepcopy(case)
+    gvars = case.setdefault('gvars', {})
+    svars = case.setdefault('svars', {})
+    for c in case['comps']:
+        c.setdefault('vars', {})
+        rp = c.get('repl')
+        if rp and rp['how'] in ('var-global', 'var-stage', 'var-comp'):
+            var = rp.get('var', 'n')
+            if rp['how'] == 'var-global':
+                gvars[var] = str(rp['n'])
+            elif rp['how'] == 'var-stage':
+                gvars[var] = str(rp['n'] + 3)          # overridden by the stage layer
+                svars.setdefault(str(c['stage']), {})[var] = str(rp['n'])
+            else:
+                gvars[var] = str(rp['n'] + 5)          # overridden by the component layer
+                c['vars'][var] = rp['n']
+            c['repl'] = {'how': 'var', 'var': var}
+    return case
+
+
+def chain_lookup(case, c, var):
+    """value of `var` for component c: its own variables, else those of its stage, else the global ones"""
+    for scope in (c.get('vars') or {}, (case.get('svars') or {}).get(str(c['stage'])) or {}, case.get('gvars') or {}):
+        if var in scope:
+            return scope[var]
+    return None
+
+
+def count_of(case, c):
+    """the number of replicas component c requests: None (none), an int, or UNRESOLVED"""
+    rp = c.get('repl')
+    if not rp:
+        return None
+    if rp['how'] == 'var':
+        v = chain_lookup(case, c, rp['var'])
+        if v is None or isinstance(v, bool) or not str(v).isdigit():
+            return UNRESOLVED
+        return int(str(v))
+    return rp['n']
+
+
+def flag_value(v):
     """workflowAttributes.aggregate as the loader reads it: booleans as they are, strings through str_to_bool
     (true/yes, false/no, any case) -- see FlowIR.convert_component_types"""
-    v = c.get('agg')
     if isinstance(v, str):
         return v.lower() in ('true', 'yes')
     return bool(v)
+
+
+def is_agg(case, c):
+    """does component c aggregate: True / False / UNRESOLVED"""
+    v = c.get('agg')
+    if isinstance(v, dict):
+        v = chain_lookup(case, c, v['var'])
+        if v is None:
+            return UNRESOLVED
+    return flag_value(v)
 
 
 
@@ -59,13 +130,14 @@ def cid(stage, name):
 
 def build_doc(case):
     """The FlowIR document of a case, components in the order case['order'] (a permutation)."""
-    gvars = {}
-    svars = {}
+    case = normalise(case)
     comps = []
     for c in case['comps']:
         d = {'name': c['name'], 'stage': c['stage'],
              'command': {'executable': 'echo', 'arguments': c['args']},
              'references': [render(r) for r in c['refs']]}
+        if c.get('vars'):
+            d['variables'] = dict(c['vars'])
         wa = {}
         rp = c.get('repl')
         if rp is not None:
@@ -75,35 +147,53 @@ def build_doc(case):
             elif how == 'str':
                 wa['replicate'] = str(rp['n'])
             else:
-                var = rp.get('var', 'n')
-                wa['replicate'] = '%%(%s)s' % var
-                if how == 'var-global':
-                    gvars[var] = str(rp['n'])
-                elif how == 'var-stage':
-                    gvars[var] = str(rp['n'] + 3)          # overridden by the stage layer
-                    svars.setdefault(c['stage'], {})[var] = str(rp['n'])
-                else:
-                    gvars[var] = str(rp['n'] + 5)          # overridden by the component layer
-                    d.setdefault('variables', {})[var] = rp['n']
-        if c.get('agg') is not None:
+                wa['replicate'] = '%%(%s)s' % rp['var']
+        if isinstance(c.get('agg'), dict):
+            wa['aggregate'] = '%%(%s)s' % c['agg']['var']
+        elif c.get('agg') is not None:
             wa['aggregate'] = c['agg']
         if wa:
             d['workflowAttributes'] = wa
         comps.append(d)
     order = case.get('order') or list(range(len(comps)))
     doc = {'components': [comps[i] for i in order]}
+    gvars = dict(case.get('gvars') or {})
+    svars = {int(k): dict(v) for k, v in (case.get('svars') or {}).items() if v}
     if gvars or svars:
         doc['variables'] = {'default': {'global': gvars, 'stages': svars}}
     return doc
 
 
+def _pairs(d):
+    return sorted([k, str(v)] for k, v in (d or {}).items())
+
+
+def _spec_repl(rp):
+    if not rp:
+        return None
+    if rp['how'] == 'var':
+        return {'var': rp['var']}
+    return {'lit': str(rp['n'])}
+
+
+def _spec_agg(a):
+    if a is None:
+        return None
+    if isinstance(a, dict):
+        return {'var': a['var']}
+    return {'lit': str(a)}
+
+
 def model_request(case):
+    """the raw document: the model resolves the attributes itself (ReplVars.resolveAll)"""
+    case = normalise(case)
     comps = []
     for c in case['comps']:
-        comps.append({'stage': c['stage'], 'name': c['name'], 'repl': c['repl']['n'] if c.get('repl') else None,
-                      'agg': is_agg(c), 'args': c['args'],
+        comps.append({'stage': c['stage'], 'name': c['name'], 'vars': _pairs(c.get('vars')),
+                      'repl': _spec_repl(c.get('repl')), 'agg': _spec_agg(c.get('agg')), 'args': c['args'],
                       'refs': [dict(r) for r in c['refs']]})
-    return {'op': 'expand', 'comps': comps}
+    return {'op': 'expand', 'comps': comps, 'gvars': _pairs(case.get('gvars')),
+            'svars': sorted([int(k), _pairs(v)] for k, v in (case.get('svars') or {}).items())}
 
 
 # ----------------------------------------------------------------------------------------
@@ -116,11 +206,35 @@ def classify_exc(exc):
         return 'inconsistent'
     if 'exists multiple times' in msg:
         return 'duplicate'
+    if 'Attempted to resolve' in msg:
+        return 'unresolved'
     return 'other:%s:%s' % (type(exc).__name__, ' '.join(msg.split())[:300])
+
+
+def _view(components):
+    comps = []
+    for x in components:
+        comps.append({'id': cid(x.get('stage', 0), x['name']), 'stage': x.get('stage', 0), 'name': x['name'],
+                      'refs': list(x.get('references', [])),
+                      'args': x.get('command', {}).get('arguments', ''),
+                      'replica': x.get('variables', {}).get('replica'),
+                      'replicate': x.get('workflowAttributes', {}).get('replicate')})
+    return comps
+
+
+def case_orders(case):
+    """processing orders (permutations of the indices of case['comps']) for path C"""
+    n = len(case['comps'])
+    orders = [list(o) for o in (case.get('orders') or [])]
+    for o in (list(range(n)), list(range(n - 1, -1, -1))):
+        if o not in orders:
+            orders.append(o)
+    return orders
 
 
 def impl_run(case):
     F, G = _mods()
+    case = normalise(case)
     doc = build_doc(case)
     out = {}
     prev = logging.root.manager.disable
@@ -129,16 +243,29 @@ def impl_run(case):
         try:
             conc = F.FlowIRConcrete(copy.deepcopy(doc), 'default', {})
             rep = conc.replicate(ignore_errors=True)
-            comps = []
-            for x in rep['components']:
-                comps.append({'id': cid(x.get('stage', 0), x['name']), 'stage': x.get('stage', 0), 'name': x['name'],
-                              'refs': list(x.get('references', [])),
-                              'args': x.get('command', {}).get('arguments', ''),
-                              'replica': x.get('variables', {}).get('replica'),
-                              'replicate': x.get('workflowAttributes', {}).get('replicate')})
-            out['comps'] = comps
+            out['comps'] = _view(rep['components'])
         except Exception as exc:  # noqa
             out['replicate_error'] = classify_exc(exc)
+        # C: what replicate() does, with the components handed to apply_replicate in a chosen order
+        runs = []
+        try:
+            conc = F.FlowIRConcrete(copy.deepcopy(doc), 'default', {})
+            inst = conc.instance('default', ignore_errors=True, fill_in_all=False)
+            byid = {(x.get('stage', 0), x['name']): x for x in inst['components']}
+            pvars = inst['variables']['default']
+            app_deps = conc.get_application_dependencies()
+        except Exception as exc:  # noqa
+            runs.append({'order': None, 'error': classify_exc(exc)})
+        else:
+            for order in case_orders(case):
+                comps = [copy.deepcopy(byid[(case['comps'][i]['stage'], case['comps'][i]['name'])]) for i in order]
+                try:
+                    res = F.FlowIR.apply_replicate(comps, copy.deepcopy(pvars), False, list(app_deps),
+                                                   top_level_folders=None)
+                    runs.append({'order': order, 'comps': _view(res)})
+                except Exception as exc:  # noqa
+                    runs.append({'order': order, 'error': classify_exc(exc)})
+        out['runs'] = runs
         try:
             g = G.WorkflowGraph.graphFromFlowIR(copy.deepcopy(doc), {}, primitive=False)
             out['nodes'] = sorted(g.graph.nodes)
@@ -168,16 +295,22 @@ def parse_ref(ref, stage):
 
 def expected(case):
     """What the property says the expansion is.  Returns {'error': kind} | {'nodes', 'edges', 'comps'}."""
+    case = normalise(case)
     comps = case['comps']
     byid = {(c['stage'], c['name']): c for c in comps}
-    aggs = {k for k, c in byid.items() if is_agg(c)}
+    # what every component requests, each resolved in its OWN scope chain (component over stage over global)
+    own = {k: count_of(case, c) for k, c in byid.items()}
+    flags = {k: is_agg(case, c) for k, c in byid.items()}
+    if UNRESOLVED in own.values() or UNRESOLVED in flags.values():
+        return {'error': 'unresolved'}
+    aggs = {k for k in byid if flags[k]}
     count = {}
     # region: reachable from a replication point without crossing an aggregator; comps are topologically ordered
     for c in comps:
         k = (c['stage'], c['name'])
         vals = set()
-        if c.get('repl'):
-            vals.add(c['repl']['n'])
+        if own[k] is not None:
+            vals.add(own[k])
         for r in c['refs']:
             if r['comp']:
                 p = (r['stage'], r['name'])
@@ -228,38 +361,57 @@ def expected(case):
     return {'nodes': sorted(nodes), 'edges': sorted([list(e) for e in edges]), 'comps': res}
 
 
+def _check_components(exp, comps, where):
+    """the replicated components `comps` against the expected expansion"""
+    fails = []
+    got = {c['id']: c for c in comps}
+    want = {o['id']: o for o in exp['comps']}
+    if sorted(got) != sorted(want) or len(comps) != len(exp['comps']):
+        fails.append(('wrong-component-set', dict(where, expected=sorted(want), got=sorted(c['id'] for c in comps))))
+        return fails
+    ids = set(got)
+    for k in sorted(want):
+        o, g = want[k], got[k]
+        prs = [parse_ref(r, g['stage']) for r in g['refs']]
+        if prs != o['refs']:
+            fails.append(('wrong-references', dict(where, component=k, expected=o['refs'], got=g['refs'])))
+        for p in prs:
+            if p[0] == 'unparsable' or (p[0] == 'comp' and cid(p[1], p[2]) not in ids):
+                fails.append(('dangling-reference', dict(where, component=k, reference=p)))
+        if g['replica'] != o['replica'] or (o['replica'] is not None and g['replicate'] != o['replicate']):
+            fails.append(('wrong-replica-variable', dict(where, component=k, expected=[o['replica'], o['replicate']],
+                                                         got=[g['replica'], g['replicate']])))
+    return fails
+
+
 def oracle(case, out):
     """list of (slug, detail) — empty when the implementation's result is what the property requires"""
     exp = expected(case)
     fails = []
+    runs = [r for r in out.get('runs', []) if r.get('order') is not None]
     if 'error' in exp:
-        # not a workflow the property talks about (inconsistent counts / generated names collide): it must not be
-        # expanded silently into something else; a rejection is the proper outcome
-        if exp['error'] in ('inconsistent', 'unknown'):
+        # not a workflow the property talks about (inconsistent counts / a count given through a variable that the
+        # component cannot see / generated names collide): it must not be expanded silently into something else; a
+        # rejection is the proper outcome
+        if exp['error'] in ('inconsistent', 'unknown', 'unresolved'):
             if 'replicate_error' not in out and 'graph_error' not in out:
                 fails.append(('invalid-workflow-accepted', {'expected': exp}))
+            for r in runs:
+                if 'error' not in r:
+                    fails.append(('invalid-workflow-accepted', {'expected': exp, 'processing_order': r['order']}))
         elif 'graph_error' not in out:
             fails.append(('colliding-names-accepted', {'expected': exp}))
         return fails
     if 'replicate_error' in out:
         return [('replication-raises-on-valid-workflow', {'error': out['replicate_error']})]
-    got = {c['id']: c for c in out['comps']}
-    want = {o['id']: o for o in exp['comps']}
-    if sorted(got) != sorted(want) or len(out['comps']) != len(exp['comps']):
-        fails.append(('wrong-component-set', {'expected': sorted(want), 'got': sorted(c['id'] for c in out['comps'])}))
-    else:
-        ids = set(got)
-        for k in sorted(want):
-            o, g = want[k], got[k]
-            prs = [parse_ref(r, g['stage']) for r in g['refs']]
-            if prs != o['refs']:
-                fails.append(('wrong-references', {'component': k, 'expected': o['refs'], 'got': g['refs']}))
-            for p in prs:
-                if p[0] == 'unparsable' or (p[0] == 'comp' and cid(p[1], p[2]) not in ids):
-                    fails.append(('dangling-reference', {'component': k, 'reference': p}))
-            if g['replica'] != o['replica'] or (o['replica'] is not None and g['replicate'] != o['replicate']):
-                fails.append(('wrong-replica-variable', {'component': k, 'expected': [o['replica'], o['replicate']],
-                                                         'got': [g['replica'], g['replicate']]}))
+    fails.extend(_check_components(exp, out['comps'], {'path': 'FlowIRConcrete.replicate'}))
+    # the same expansion whatever the order in which the components are processed
+    for r in out.get('runs', []):
+        where = {'path': 'FlowIR.apply_replicate', 'processing_order': r['order']}
+        if 'error' in r:
+            fails.append(('replication-raises-on-valid-workflow', dict(where, error=r['error'])))
+        else:
+            fails.extend(_check_components(exp, r['comps'], where))
     if 'graph_error' in out:
         fails.append(('loader-rejects-valid-workflow', {'error': out['graph_error']}))
     else:
@@ -267,7 +419,12 @@ def oracle(case, out):
             fails.append(('wrong-node-set', {'expected': exp['nodes'], 'got': out['nodes']}))
         if out['edges'] != exp['edges']:
             fails.append(('wrong-edge-set', {'expected': exp['edges'], 'got': out['edges']}))
-    return fails
+    seen, uniq = set(), []
+    for w, d in fails:          # one failure per slug is enough for the verdict; keep the first of each
+        if w not in seen:
+            seen.add(w)
+            uniq.append((w, d))
+    return uniq
 
 
 # ----------------------------------------------------------------------------------------
@@ -304,15 +461,130 @@ def gen_args(rng, c, comps):
     return ' '.join(toks)
 
 
+def _fmt_count(rng, n):
+    return rng.choice([n, str(n)])
+
+
+def _fmt_flag(rng, b):
+    return rng.choice(TRUE_SPELLINGS if b else FALSE_SPELLINGS)
+
+
+def assign_var(rng, case, var, users, fmt, decoy, p_sibling):
+    """Define variable `var` in the scopes of the case so that every user (index of a component, wanted value) finds its
+    wanted value in ITS scope chain, from a scope drawn at random (global / its stage / itself), and so that as many
+    other scopes as possible hold a different value (decoys): the layers it overrides, the stages without users and
+    -- the point -- sibling components that define `var` for themselves without using it for this attribute."""
+    comps, gvars, svars = case['comps'], case['gvars'], case['svars']
+    want = dict(users)
+    src = {i: rng.choice(['global', 'global', 'stage', 'own']) for i in want}
+    gl = [i for i in sorted(src) if src[i] == 'global']
+    gval = want[rng.choice(gl)] if gl else None
+    for i in gl:
+        if want[i] != gval:
+            src[i] = 'own'
+    taken = set(want.values())
+    for st in sorted({c['stage'] for c in comps}):
+        in_st = [i for i in sorted(src) if comps[i]['stage'] == st]
+        stu = [i for i in in_st if src[i] == 'stage']
+        if any(src[i] == 'global' for i in in_st):
+            for i in stu:                       # the stage must not define it: the global value has to shine through
+                src[i] = 'global' if want[i] == gval else 'own'
+        elif stu:
+            sval = want[rng.choice(stu)]
+            for i in stu:
+                if want[i] != sval:
+                    src[i] = 'own'
+            svars.setdefault(str(st), {})[var] = fmt(rng, sval)
+        elif rng.random() < 0.4:
+            svars.setdefault(str(st), {})[var] = fmt(rng, decoy(rng, taken))
+    if gval is not None:
+        gvars[var] = fmt(rng, gval)
+    elif rng.random() < 0.6:
+        gvars[var] = fmt(rng, decoy(rng, taken))
+    for i in sorted(src):
+        if src[i] == 'own':
+            comps[i]['vars'][var] = fmt(rng, want[i])
+    for j, c in enumerate(comps):
+        if j not in src and var not in c['vars'] and rng.random() < p_sibling:
+            c['vars'][var] = fmt(rng, decoy(rng, taken))
+    return src
+
+
+def _decoy_count(rng, taken):
+    return rng.choice([x for x in (1, 2, 3, 4, 5, 6, 7) if x not in taken])
+
+
+def _decoy_flag(rng, taken):
+    if len(taken) == 1:
+        return not next(iter(taken))
+    return rng.random() < 0.5
+
+
+def assign_scopes(rng, case, p_var, p_sibling):
+    """Give (some of) the replica counts and aggregate flags of the case through variables; the same one or two
+    variable names are shared by all components of the case."""
+    comps = case['comps']
+    case['gvars'], case['svars'] = {}, {}
+    for c in comps:
+        c['vars'] = {}
+    names = rng.sample(COUNT_VARS, rng.choice([1, 1, 2]))
+    users = {}
+    for i, c in enumerate(comps):
+        if c.get('repl') and rng.random() < p_var:
+            var = rng.choice(names)
+            users.setdefault(var, []).append((i, c['repl']['n']))
+            c['repl'] = {'how': 'var', 'var': var}
+        elif c.get('repl'):
+            c['repl'] = {'how': rng.choice(['int', 'int', 'str']), 'n': c['repl']['n']}
+    for var in names:
+        if var in users:
+            assign_var(rng, case, var, users[var], _fmt_count, _decoy_count, p_sibling)
+    fname = rng.choice([x for x in FLAG_VARS if x not in names])
+    fusers = []
+    for i, c in enumerate(comps):
+        if c.get('agg') is not None and rng.random() < p_var:
+            fusers.append((i, flag_value(c['agg'])))
+            c['agg'] = {'var': fname}
+        elif c.get('agg') is None and c['refs'] and rng.random() < p_var * 0.15:
+            fusers.append((i, False))          # a component that says "aggregate: no" through the variable
+            c['agg'] = {'var': fname}
+    if fusers:
+        assign_var(rng, case, fname, fusers, _fmt_flag, _decoy_flag, p_sibling)
+    if rng.random() < 0.04:
+        # a count given through a variable that only OTHER components define: not visible to the component
+        cands = [i for i, c in enumerate(comps) if not c.get('repl') and c.get('agg') is None]
+        others = [j for j in range(len(comps))]
+        if cands and len(comps) > 1:
+            i = rng.choice(cands)
+            var = rng.choice(['hidden', 'k'] + names)
+            if chain_lookup(case, comps[i], var) is None:
+                comps[i]['repl'] = {'how': 'var', 'var': var}
+                for j in others:
+                    if j != i and rng.random() < 0.7:
+                        comps[j]['vars'][var] = _fmt_count(rng, rng.choice([1, 2, 3]))
+
+
+def gen_orders(rng, n):
+    """topological order, its reverse (=> every pair in both relative orders) and random shuffles"""
+    orders = [list(range(n)), list(range(n - 1, -1, -1))]
+    for _ in range(2):
+        o = list(range(n))
+        rng.shuffle(o)
+        if o not in orders:
+            orders.append(o)
+    return orders
+
+
 def gen_case(rng, kind=None):
-    kind = kind or rng.choice(['overlap', 'overlap', 'overlap', 'chain', 'cross-stage', 'plain', 'inconsistent'])
-    ncomp = rng.randint(2, 7)
+    kind = kind or rng.choice(['overlap', 'overlap', 'overlap', 'chain', 'cross-stage', 'plain', 'inconsistent',
+                               'scopes', 'scopes', 'scopes'])
+    ncomp = rng.randint(2, 7) if kind != 'scopes' else rng.randint(3, 7)
     pool = list(POOL)
     if kind in ('overlap', 'cross-stage'):
         # a small sub pool makes overlapping pairs likely
         base = rng.choice(['A', 'gen', 'B', 'a', 'C'])
         pool = [x for x in POOL if base in x] + [base]
-    nstages = rng.choice([1, 2, 2, 3])
+    nstages = rng.choice([1, 2, 2, 3]) if kind != 'scopes' else rng.choice([1, 1, 2, 2, 3])
     ids = []
     tries = 0
     while len(ids) < ncomp and tries < 100:
@@ -328,6 +600,8 @@ def gen_case(rng, kind=None):
     the_n = rng.choice([1, 2, 2, 2, 3, 3, 4, 11])
     if the_n == 11 and rng.random() < 0.7:
         the_n = 2
+    # several independent replicated regions with different counts (they must not meet, else the counts are inconsistent)
+    other_n = rng.choice([x for x in (1, 2, 3, 4) if x != the_n]) if kind == 'scopes' and rng.random() < 0.4 else the_n
     comps = []
     any_rep = False
     for idx, (st, nm) in enumerate(ids):
@@ -340,11 +614,12 @@ def gen_case(rng, kind=None):
         if rng.random() < 0.35:
             c['refs'].append({'comp': False, 'text': rng.choice(DIRECT) % rng.choice(pool)})
         rng.shuffle(c['refs'])
-        preplicated = 0.3 if any_rep else 0.6
+        preplicated = (0.3 if any_rep else 0.6) if kind != 'scopes' else (0.45 if any_rep else 0.7)
         if rng.random() < preplicated and (idx < len(ids) - 1 or not any_rep):
             n = the_n if kind != 'inconsistent' or rng.random() < 0.5 else the_n + 1
-            c['repl'] = {'n': n, 'how': rng.choice(['int', 'int', 'str', 'var-global', 'var-stage', 'var-comp']),
-                         'var': rng.choice(['n', 'N', 'replicas', 'num-points']) + str(idx)}
+            if kind == 'scopes' and not c['refs'] and rng.random() < 0.5:
+                n = other_n
+            c['repl'] = {'n': n, 'how': 'int'}
             any_rep = True
         if c['refs'] and rng.random() < 0.3:
             c['agg'] = rng.choice(TRUE_SPELLINGS)
@@ -354,7 +629,12 @@ def gen_case(rng, kind=None):
         comps.append(c)
     order = list(range(len(comps)))
     rng.shuffle(order)
-    return {'kind': kind, 'comps': comps, 'order': order}
+    case = {'kind': kind, 'comps': comps, 'order': order, 'orders': gen_orders(rng, len(comps))}
+    if kind == 'scopes':
+        assign_scopes(rng, case, 0.9, 0.6)
+    else:
+        assign_scopes(rng, case, 0.45, 0.35)
+    return case
 
 
 # ----------------------------------------------------------------------------------------
@@ -416,7 +696,7 @@ def aggregator_repeats_reference(case):
         return False
     region_of = {o['of'] for o in exp['comps'] if o['replica'] is not None}
     for c in case['comps']:
-        if c.get('agg') in TRUE_SPELLINGS:
+        if is_agg(case, c) is True:
             seen = set()
             for r in c['refs']:
                 if r['comp'] and cid(r['stage'], r['name']) in region_of:
@@ -435,14 +715,40 @@ CLASSIFIERS = {'c03_reference_spelling_inside_other_token': classify_textual_ove
                'c03_aggregator_declares_reference_twice': classify_aggregator_repeat}
 
 
+def scope_tags(case):
+    """which scope situations of the variables that give counts / flags occur in the case"""
+    tags = set()
+    for i, c in enumerate(case['comps']):
+        for attr, var in (('count', (c.get('repl') or {}).get('var') if (c.get('repl') or {}).get('how') == 'var'
+                           else None),
+                          ('flag', c['agg']['var'] if isinstance(c.get('agg'), dict) else None)):
+            if var is None:
+                continue
+            tags.add('%s-via-variable' % attr)
+            own = var in (c.get('vars') or {})
+            stg = var in ((case.get('svars') or {}).get(str(c['stage'])) or {})
+            glb = var in (case.get('gvars') or {})
+            tags.add('var-from:' + ('own' if own else 'stage' if stg else 'global' if glb else 'nowhere'))
+            if own + stg + glb > 1:
+                tags.add('var-shadows-outer-scope')
+            mine = chain_lookup(case, c, var)
+            for j, o in enumerate(case['comps']):
+                if j != i and var in (o.get('vars') or {}) and str(o['vars'][var]) != str(mine):
+                    tags.add('sibling-defines-same-variable-differently')
+                    if o['stage'] == c['stage']:
+                        tags.add('same-stage-sibling-defines-same-variable-differently')
+    return sorted(tags)
+
+
 def features(case):
+    case = normalise(case)
     exp = expected(case)
-    tags = ['kind:' + case.get('kind', '?'), 'ncomp:%d' % len(case['comps'])]
+    tags = ['kind:' + case.get('kind', '?'), 'ncomp:%d' % len(case['comps'])] + scope_tags(case)
     if 'error' in exp:
         tags.append('expected:' + exp['error'])
         return tags, False
     copies = [o for o in exp['comps'] if o['replica'] is not None]
-    aggs = [c for c in case['comps'] if c.get('agg') in TRUE_SPELLINGS]
+    aggs = [c for c in case['comps'] if is_agg(case, c) is True]
     rewired = 0
     for o in exp['comps']:
         src = next(c for c in case['comps'] if cid(c['stage'], c['name']) == o['of'])
@@ -458,8 +764,8 @@ def features(case):
         tags.append('spelling-overlap')
     if aggregator_repeats_reference(case):
         tags.append('aggregator-repeats-reference')
-    if any(c.get('repl') and c['repl']['how'].startswith('var') for c in case['comps']):
-        tags.append('count-via-variable')
+    if len({count_of(case, c) for c in case['comps'] if c.get('repl')}) > 1:
+        tags.append('several-counts')
     if any(r['comp'] and r['long'] for c in case['comps'] for r in c['refs']):
         tags.append('long-spelling')
     if any(r['comp'] and not r['long'] for c in case['comps'] for r in c['refs']):
@@ -488,6 +794,7 @@ def canon_text(comps):
 
 
 def check_cases(ctx, cases):
+    cases = [normalise(c) for c in cases]
     mouts = ctx.model([model_request(c) for c in cases])
     for idx, case in enumerate(cases):
         out = impl_run(case)
@@ -508,6 +815,11 @@ def check_cases(ctx, cases):
             else:
                 impl_err = out.get('replicate_error', 'accepted')
             ctx.compare('replication error kind == Repl.expand error', case, {'error': m['error']}, {'error': impl_err})
+            if m['error'] != 'duplicate':
+                for r in out.get('runs', []):
+                    ctx.compare('apply_replicate(components in a chosen processing order) error kind == '
+                                'ReplVars.expandRaw error', case, {'error': m['error']},
+                                {'error': r.get('error', 'accepted')})
             continue
         ctx.tag('model:ok')
         if 'replicate_error' in out:
@@ -515,6 +827,12 @@ def check_cases(ctx, cases):
             continue
         ctx.compare('replicated components (references, arguments, replica, replicate) == Repl.goText', case,
                     canon_text(m['text']), canon_text(out['comps']))
+        for r in out.get('runs', []):
+            # the model's answer does not depend on the processing order (resolveAll_perm,
+            # count_independent_of_siblings): the code must give it for every order
+            ctx.compare('apply_replicate(components in a chosen processing order) == Repl.goText of '
+                        'ReplVars.resolveAll', case, canon_text(m['text']),
+                        canon_text(r['comps']) if 'comps' in r else {'error': r['error'], 'order': r['order']})
         if 'graph_error' in out:
             ctx.compare('loader verdict == Repl.expand verdict', case, 'loaded', {'error': out['graph_error']})
         else:
@@ -523,9 +841,17 @@ def check_cases(ctx, cases):
                         sorted(set(map(tuple, out['edges']))))
 
 
+def shrink_orders(n):
+    if n <= 4:
+        return [list(o) for o in itertools.permutations(range(n))]
+    ident = list(range(n))
+    return [ident, ident[::-1]] + [ident[k:] + ident[:k] for k in range(1, n)]
+
+
 def shrink(what, case):
-    """greedy: drop components, references, path/variable decorations while the same oracle failure persists; the
-    command line is first reduced to the plain list of the declared references and then kept in step with them"""
+    """greedy: drop components, references, variables, path/variable decorations while the same oracle failure persists;
+    the command line is first reduced to the plain list of the declared references and then kept in step with them; the
+    processing orders tried are all permutations (<= 4 components) or the rotations of the topological order"""
     def fails(c):
         stages = sorted({x['stage'] for x in c['comps']})
         if stages != list(range(len(stages))):
@@ -540,8 +866,10 @@ def shrink(what, case):
         for x in c['comps']:
             x['args'] = ' '.join(render(r) for r in x['refs'] if not (r['comp'] and r['method'] == 'copyout'))
         c['order'] = list(range(len(c['comps'])))
+        c['orders'] = shrink_orders(len(c['comps']))
         return c
 
+    case = normalise(case)
     cur = plain(case)
     if not fails(cur):
         return case
@@ -557,6 +885,17 @@ def shrink(what, case):
             cand = plain(cand)
             if cand['comps'] and fails(cand):
                 cur, changed = cand, True
+        # variables, scope by scope
+        scopes = [('gvars', None)] + [('svars', k) for k in sorted(cur.get('svars') or {})] + \
+                 [('comp', i) for i in range(len(cur['comps']))]
+        for kind, key in scopes:
+            def scope_of(c):
+                return c['gvars'] if kind == 'gvars' else c['svars'][key] if kind == 'svars' else c['comps'][key]['vars']
+            for var in sorted(scope_of(cur)):
+                cand = copy.deepcopy(cur)
+                del scope_of(cand)[var]
+                if fails(cand):
+                    cur, changed = cand, True
         for ci in range(len(cur['comps'])):
             for ri in range(len(cur['comps'][ci]['refs']) - 1, -1, -1):
                 cand = copy.deepcopy(cur)
@@ -573,16 +912,23 @@ def shrink(what, case):
                         cand = plain(cand)
                         if fails(cand):
                             cur, changed = cand, True
-            if cur['comps'][ci].get('repl') and cur['comps'][ci]['repl']['how'] != 'int':
+            rp = cur['comps'][ci].get('repl')
+            if rp and rp['how'] != 'int' and isinstance(count_of(cur, cur['comps'][ci]), int):
                 cand = copy.deepcopy(cur)
-                cand['comps'][ci]['repl']['how'] = 'int'
+                cand['comps'][ci]['repl'] = {'how': 'int', 'n': count_of(cur, cur['comps'][ci])}
                 if fails(cand):
                     cur, changed = cand, True
-            if cur['comps'][ci].get('agg') not in (None, True):
+            if cur['comps'][ci].get('agg') not in (None, True) and is_agg(cur, cur['comps'][ci]) != UNRESOLVED:
                 cand = copy.deepcopy(cur)
-                cand['comps'][ci]['agg'] = True if cand['comps'][ci]['agg'] in TRUE_SPELLINGS else None
+                cand['comps'][ci]['agg'] = True if is_agg(cur, cur['comps'][ci]) else None
                 if fails(cand):
                     cur, changed = cand, True
+    # keep only one failing processing order next to the topological one when a single order is enough
+    for o in cur['orders']:
+        cand = dict(copy.deepcopy(cur), orders=[o])
+        if fails(cand):
+            cur = cand
+            break
     return cur
 
 
@@ -590,9 +936,13 @@ def R(stage, name, long=False, file=None, method='ref'):
     return {'comp': True, 'stage': stage, 'long': long, 'name': name, 'file': file, 'method': method}
 
 
-def K(stage, name, refs=(), n=None, agg=None, args=None):
+def K(stage, name, refs=(), n=None, agg=None, args=None, vars=None):
     refs = list(refs)
-    return {'stage': stage, 'name': name, 'refs': refs, 'repl': {'n': n, 'how': 'int'} if n else None, 'agg': agg,
+    if isinstance(n, str):
+        repl = {'how': 'var', 'var': n}
+    else:
+        repl = {'n': n, 'how': 'int'} if n else None
+    return {'stage': stage, 'name': name, 'refs': refs, 'repl': repl, 'agg': agg, 'vars': dict(vars or {}),
             'args': ' '.join(render(r) for r in refs) if args is None else args}
 
 
@@ -627,6 +977,28 @@ CORPUS = [
           agg=True)]},
     {'kind': 'corpus:paths', 'comps': [K(0, 'A', n=2), K(0, 'D', [R(0, 'A')], agg=True,
                                                          args='A:ref/x.txt A:ref/y.txt, -f A:ref')]},
+    # a sibling defines, for itself, the variable through which another component of the stage gives its count
+    {'kind': 'corpus:sibling-defines-count-variable', 'gvars': {'numberPoints': 4}, 'svars': {},
+     'comps': [K(0, 'calibrate', vars={'numberPoints': 1}),
+               K(0, 'simulate', [R(0, 'calibrate')], n='numberPoints'),
+               K(0, 'analyse', [R(0, 'simulate')]),
+               K(0, 'collect', [R(0, 'analyse')], agg=True)]},
+    # the three layers at once: global < stage < component; two replication points in stage 0, one in stage 1
+    {'kind': 'corpus:count-variable-layers', 'gvars': {'n': '5'}, 'svars': {'0': {'n': 2}, '1': {}},
+     'comps': [K(0, 'A', n='n'), K(0, 'B', n='n', vars={'n': '2'}), K(0, 'X', vars={'n': 7}),
+               K(0, 'C', [R(0, 'A'), R(0, 'B'), R(0, 'X')]),
+               K(1, 'E', n='n', vars={'n': 2}), K(1, 'Y', vars={'n': 3}),
+               K(1, 'F', [R(0, 'C', long=True), R(1, 'E'), R(1, 'Y')]),
+               K(1, 'G', [R(1, 'F')], agg=True)]},
+    # the aggregate flag through a variable: global "no", the collector says "yes" for itself, its sibling "no"
+    {'kind': 'corpus:aggregate-flag-variable', 'gvars': {'doAggregate': 'no', 'n': 3}, 'svars': {},
+     'comps': [K(0, 'A', n='n'), K(0, 'B', [R(0, 'A')], agg={'var': 'doAggregate'}),
+               K(0, 'S', vars={'doAggregate': 'yes', 'n': 1}),
+               K(0, 'D', [R(0, 'B'), R(0, 'S')], agg={'var': 'doAggregate'}, vars={'doAggregate': 'yes'}),
+               K(0, 'T', [R(0, 'D')], vars={'doAggregate': 'no'})]},
+    # a count variable that only a sibling defines is not visible to the component
+    {'kind': 'corpus:count-variable-of-sibling-only', 'gvars': {}, 'svars': {},
+     'comps': [K(0, 'S', vars={'k': 2}), K(0, 'A', [R(0, 'S')], n='k')]},
 ]
 
 
@@ -636,10 +1008,16 @@ def run(ctx):
     ctx.rule = ("cases = acyclic workflows of 2-7 components over 1-3 stages, names drawn from a pool built to overlap "
                 "(suffix/prefix/infix pairs such as A/BA/AB/ABA/xA, trailing digits A1/A10/gen2, names that look like "
                 "reference parts: stage/stage0/ref/copy), equal names in different stages, replica counts 1-4 (11 "
-                "sometimes) given as int, string or %(var)s resolved at the global/stage/component layer, references "
+                "sometimes) given as int, string or %(var)s, aggregate flags given literally or as %(var)s, where the "
+                "one or two variable names of a case are defined with different values at several scopes at once "
+                "(global, stage, the component itself, sibling components of the same and of other stages that do "
+                "not use them), several replication points per stage (kind 'scopes': also with different counts), a "
+                "few counts given through a variable that only siblings define (must be rejected), references "
                 "in both spellings with optional (nested) file paths and the six non-loop methods, direct references "
                 "to files named like components, aggregators spelled True/yes/true/y, command lines using the "
-                "references with path suffixes and separators; components are handed to the code in a random order. "
+                "references with path suffixes and separators; the document lists the components in a random order and "
+                "FlowIR.apply_replicate is additionally driven with the components in explicit processing orders "
+                "(topological, reversed, two random shuffles: every pair of components in both relative orders). "
                 "non-trivial = the expected expansion has at least one copy and at least one component whose "
                 "references are rewired; distinct by canonical JSON of the case.")
     ctx.assumptions = [
@@ -650,13 +1028,15 @@ def run(ctx):
         "workflows whose generated copy names collide with declared names (A with 2 replicas next to A1) are outside "
         "the property: the expected outcome is a rejection by the loader",
         "DoWhile placeholders (names with #) are not generated (C05)",
+        "an attribute given through a variable is exactly `%(name)s`; variable values are integers / digit strings "
+        "(counts) or booleans / true-yes-false-no spellings (flags) without nested %(..)s references",
     ]
     ctx.trusted.append("C03: networkx.topological_sort (the model receives the components in a topological order "
-                       "computed by the generator); resolution of %(var)s replica counts is done by the harness "
-                       "(component > stage > global) and checked against the real code by the correspondence")
+                       "computed by the generator); FlowIRConcrete.instance() as the provider of the global/stage "
+                       "scopes handed to apply_replicate; variable values without nested %(..)s references")
     rng = ctx.rng
     quick = ctx.tier == 'quick'
-    cases = [dict(c, order=list(range(len(c['comps'])))) for c in CORPUS]
+    cases = [dict(c, order=list(range(len(c['comps']))), orders=shrink_orders(len(c['comps']))) for c in CORPUS]
     n = 700 if quick else 9000
     for _ in range(n):
         cases.append(gen_case(rng))
